@@ -132,6 +132,25 @@ def audit_binning(rec: core.Recorder, b, *, op: str, detail=None, deep: bool = T
         audit_binning(rec, c, op=op + "/copy", detail=detail, deep=False)
     except Exception as e:
         fail(f"copy() / == raise {type(e).__name__}", ["copy"], error=str(e)[:100])
+    if name == "FixedWidthBinning" and n >= 1:
+        # the same grid described by another decomposition (k bins taken out of the shift into the origin index, as
+        # integer binning vs fixed width 1 shifted by -0.5): == goes by the edges, in both directions
+        try:
+            from physt.binnings import FixedWidthBinning
+
+            w = float(b.bin_width)
+            tm, sh = int(b._times_min), float(b._shift)  # noqa: SLF001 (the decomposition is what the constructor takes)
+            for k in (1, -1, 2):
+                alt = FixedWidthBinning(bin_width=w, bin_count=n, bin_times_min=tm - k, bin_shift=sh + k * w, includes_right_edge=bool(b.includes_right_edge),
+                                        adaptive=bool(b.is_adaptive()))
+                ab = np.asarray(alt.bins, dtype=float)
+                same_edges = ab.shape == bins.shape and np.array_equal(ab, bins)
+                if bool(alt == b) != same_edges or bool(b == alt) != same_edges:
+                    fail("== of two fixed-width binnings disagrees with their edges", ["eq"], edges_equal=same_edges, eq=bool(alt == b), width=w,
+                         decomposition=[tm, sh], other=[tm - k, sh + k * w])
+                    break
+        except Exception as e:
+            fail(f"equivalent fixed-width description raises {type(e).__name__}", ["eq"], error=str(e)[:100])
     try:
         s = b.as_static()
         sb = np.asarray(s.bins, dtype=float)
